@@ -12,8 +12,12 @@ Definition call (p : list stmt) := Call p false [].        (* call, result ignor
    the "labels" of the coverage table (each must be entered in some compared case). *)
 Definition H (n : nat) (b : list stmt) : list stmt := Lbl n :: b.
 
-Definition ctor (op d : list stmt) (owns : list res) : scn := mkscn [] op d owns true false true [] false.
-Definition oper (pre op d : list stmt) (owns : list res) : scn := mkscn pre op d owns true false true [] false.
+(* every constructor and every operation is RETRIED without faults after a reported failure ("safe to destroy
+   or retry"): s_retry = true; growers / inserters additionally continue to use the object ([oper_c], s_cont) *)
+Definition ctor (op d : list stmt) (owns : list res) : scn := mkscn [] op d owns true false true [] true [].
+Definition oper (pre op d : list stmt) (owns : list res) : scn := mkscn pre op d owns true false true [] true [].
+Definition oper_c (pre op d : list stmt) (owns : list res) (cont : list stmt) : scn :=
+  mkscn pre op d owns true false true [] true cont.
 
 (* ================= memory/memory_pool.c =================
    b = memory_pool_data_bufs, b+1 = memory_pool_ptr_buf, b+2 = data_bufs[0],
@@ -45,8 +49,12 @@ Definition mpool_alloc (b : res) : list stmt :=      (* pool full: grows first *
   [ Call (mpool_ensure b) false (H 17 [RF]); Use (b+1); RO ].
 
 Definition i_mpool_init := ctor (mpool_init 0) (mpool_destroy 0) [0; 1; 2].
-Definition i_mpool_ensure := oper [call (mpool_init 0)] (mpool_ensure 0) (mpool_destroy 0) [0; 1; 2; 5].
-Definition i_mpool_alloc_grow := oper [call (mpool_init 0)] (mpool_alloc 0) (mpool_destroy 0) [0; 1; 2; 5].
+(* continued use of a pool: blocks are allocated up to the (new) capacity - beyond the old one -, written and freed:
+   the slab-pointer array, the free-pointer ring and every slab are dereferenced *)
+Definition mpool_cont (b : res) : list stmt :=
+  [ Use b; Use (b+1); IfSet (b+3) [Use (b+2)]; IfSet (b+7) [Use (b+5)]; RO ].
+Definition i_mpool_ensure := oper_c [call (mpool_init 0)] (mpool_ensure 0) (mpool_destroy 0) [0; 1; 2; 5] (mpool_cont 0).
+Definition i_mpool_alloc_grow := oper_c [call (mpool_init 0)] (mpool_alloc 0) (mpool_destroy 0) [0; 1; 2; 5] (mpool_cont 0).
 
 (* ================= sync/channel.c =================
    0 = write_mutex, 1 = read_mutex, 2 = read_cv, 3 = blocks *)
@@ -178,16 +186,19 @@ Definition arr_insert_grow : list stmt := [ Call arr_ensure false (H 42 [RF]); U
 Definition arr_destroy : list stmt := [ Free 0 ].
 Definition arr_destroy_g : list stmt := guarded_free1.     (* heap_destroy: if (nodes) { free; = NULL } *)
 
+(* continued use of an array container: elements are stored up to and beyond the old capacity (the array is read and
+   written, one further growth), then read back *)
+Definition arr_cont : list stmt := [ Use 0; Call arr_ensure false (H 42 [RF]); Use 0; RO ].
 Definition i_array_list_init := ctor arr_init arr_destroy [0].
-Definition i_array_list_ensure := oper [call arr_init] arr_ensure arr_destroy [0].
-Definition i_array_list_insert_grow := oper [call arr_init] arr_insert_grow arr_destroy [0].
-Definition i_array_list_insert_grow2 := oper [call arr_init] arr_insert_grow arr_destroy [0].  (* muggle_array_list_insert *)
+Definition i_array_list_ensure := oper_c [call arr_init] arr_ensure arr_destroy [0] arr_cont.
+Definition i_array_list_insert_grow := oper_c [call arr_init] arr_insert_grow arr_destroy [0] arr_cont.
+Definition i_array_list_insert_grow2 := oper_c [call arr_init] arr_insert_grow arr_destroy [0] arr_cont.  (* muggle_array_list_insert *)
 Definition i_heap_init := ctor arr_init arr_destroy_g [0].
-Definition i_heap_ensure := oper [call arr_init] arr_ensure arr_destroy_g [0].
-Definition i_heap_insert_grow := oper [call arr_init] arr_insert_grow arr_destroy_g [0].
+Definition i_heap_ensure := oper_c [call arr_init] arr_ensure arr_destroy_g [0] arr_cont.
+Definition i_heap_insert_grow := oper_c [call arr_init] arr_insert_grow arr_destroy_g [0] arr_cont.
 Definition i_stack_init := ctor arr_init arr_destroy [0].
-Definition i_stack_ensure := oper [call arr_init] arr_ensure arr_destroy [0].
-Definition i_stack_push_grow := oper [call arr_init] arr_insert_grow arr_destroy [0].
+Definition i_stack_ensure := oper_c [call arr_init] arr_ensure arr_destroy [0] arr_cont.
+Definition i_stack_push_grow := oper_c [call arr_init] arr_insert_grow arr_destroy [0] arr_cont.
 
 (* ================= dsaa containers with an optional node pool =================
    q = ->pool, q+1 .. q+8 = the pool's own fields (mpool_* with b = q+1),
@@ -201,11 +212,28 @@ Definition pool_part (q : res) : list stmt :=
 Definition pool_destroy_part (q : res) : list stmt :=
   [ IfSet q [Use q; call (mpool_destroy (q+1)); Free q] ].
 Definition free_nodes (q : res) : list stmt :=          (* clear: free every malloc'ed node *)
-  [ IfSet (q+12) [Use (q+12); Free (q+12); SetNull (q+12)];
+  [ IfSet (q+14) [Use (q+14); Free (q+14); SetNull (q+14)];
+    IfSet (q+13) [Use (q+13); Free (q+13); SetNull (q+13)];
+    IfSet (q+12) [Use (q+12); Free (q+12); SetNull (q+12)];
     IfSet (q+11) [Use (q+11); Free (q+11); SetNull (q+11)];
     IfSet (q+10) [Use (q+10); Free (q+10); SetNull (q+10)] ].
 Definition node_alloc (n : res) : list stmt := [ Alloc n; IfNull [n] (H 45 [RF]); Use n; RO ].
 Definition pool_owns (q : res) : list res := [q; q+1; q+2; q+3].
+(* continued use of a node container: two more elements are inserted (one node each), everything is looked up *)
+Definition nodes_cont (q : res) : list stmt :=
+  [ Call (node_alloc (q+13)) false (H 46 [RF]); Call (node_alloc (q+14)) false (H 46 [RF]); RO ].
+(* ... the same, but the two extra elements are removed again (containers whose stored values are counted) *)
+Definition nodes_cont_rm (q : res) : list stmt :=
+  [ Call (node_alloc (q+14)) false (H 46 [RF]); Call (node_alloc (q+15)) false (H 46 [RF]);
+    Use (q+15); Free (q+15); SetNull (q+15); Use (q+14); Free (q+14); SetNull (q+14); RO ].
+(* ... of a trie whose values are counted: muggle_trie_remove only clears the data, the two nodes stay until destroy *)
+Definition trie_cont_keep (q : res) : list stmt :=
+  [ Call (node_alloc (q+14)) false (H 46 [RF]); Call (node_alloc (q+15)) false (H 46 [RF]); Use (q+14); Use (q+15); RO ].
+Definition extra_nodes (q : res) : list stmt :=
+  [ IfSet (q+15) [Use (q+15); Free (q+15); SetNull (q+15)]; IfSet (q+14) [Use (q+14); Free (q+14); SetNull (q+14)] ].
+(* ... of a container whose nodes come from its pool: an element is removed and inserted again (no growth), everything
+   is looked up: the pool struct, its pointer ring and its slabs are dereferenced *)
+Definition pooled_cont (q : res) : list stmt := Use q :: mpool_cont (q+1).
 
 (* avl_tree.c / trie.c: no list links *)
 Definition tree_init_orig (q : res) := pool_part_orig q ++ [RO].
@@ -219,17 +247,18 @@ Definition tree_insert_pool (q : res) : list stmt :=     (* node from the (full)
 Definition i_avl_init_orig := ctor (tree_init_orig 0) (tree_destroy 0) (pool_owns 0).
 Definition i_avl_init := ctor (tree_init 0) (tree_destroy 0) (pool_owns 0).
 Definition i_avl_insert :=
-  oper [call tree_init0; call (node_alloc 10)] (tree_insert 0 11) (tree_destroy 0) [10; 11].
+  oper_c [call tree_init0; call (node_alloc 10)] (tree_insert 0 11) (tree_destroy 0) [10; 11] (nodes_cont 0).
 Definition i_avl_insert_pool_grow :=
-  oper [call (tree_init 0)] (tree_insert_pool 0) (tree_destroy 0) (pool_owns 0 ++ [6]).
+  oper_c [call (tree_init 0)] (tree_insert_pool 0) (tree_destroy 0) (pool_owns 0 ++ [6]) (pooled_cont 0).
 Definition i_trie_init_orig := ctor (tree_init_orig 0) (tree_destroy 0) (pool_owns 0).
 Definition i_trie_init := ctor (tree_init 0) (tree_destroy 0) (pool_owns 0).
-Definition i_trie_insert1 := oper [call tree_init0] (tree_insert 0 10) (tree_destroy 0) [10].
-Definition trie_insert3 : list stmt :=                     (* key "abc": one node per byte *)
-  [ Call (node_alloc 10) false (H 48 [RF]); Call (node_alloc 11) false (H 49 [RF]);
-    Call (node_alloc 12) false (H 50 [RF]); RO ].
+Definition i_trie_insert1 := oper_c [call tree_init0] (tree_insert 0 10) (tree_destroy 0) [10] (nodes_cont 0).
+Definition trie_insert3 : list stmt :=                     (* key "abc": one node per byte, allocated where the child is missing *)
+  [ IfNull [10] [Call (node_alloc 10) false (H 48 [RF])]; IfNull [11] [Call (node_alloc 11) false (H 49 [RF])];
+    IfNull [12] [Call (node_alloc 12) false (H 50 [RF])]; RO ].
+(* a failed insert keeps the prefix nodes it created (s_retains); the retry finds them and allocates only the rest *)
 Definition i_trie_insert3 :=
-  mkscn [call tree_init0] trie_insert3 (tree_destroy 0) [10; 11; 12] true true true [] false.
+  mkscn [call tree_init0] trie_insert3 (tree_destroy 0) [10; 11; 12] true true true [] true (nodes_cont 0).
 
 (* linked_list.c: head/tail linked BEFORE the pool is created *)
 Definition ll_init_orig (q : res) := Mark (q+9) :: pool_part_orig q ++ [RO].
@@ -240,7 +269,7 @@ Definition list_destroy (q : res) :=                       (* clear walks from h
 Definition i_ll_init_orig := ctor (ll_init_orig 0) (list_destroy 0) (pool_owns 0).
 Definition i_ll_init := ctor (ll_init 0) (list_destroy 0) (pool_owns 0).
 Definition i_ll_append :=
-  oper [call (ll_init0 0); call (node_alloc 10)] (tree_insert 0 11) (list_destroy 0) [10; 11].
+  oper_c [call (ll_init0 0); call (node_alloc 10)] (tree_insert 0 11) (list_destroy 0) [10; 11] (nodes_cont 0).
 
 (* queue.c: the unchanged code links head/tail AFTER the pool is created *)
 Definition queue_init_orig (q : res) := pool_part_orig q ++ [Mark (q+9); RO].
@@ -248,7 +277,7 @@ Definition queue_init (q : res) := ll_init q.
 Definition i_queue_init_orig := ctor (queue_init_orig 0) (list_destroy 0) (pool_owns 0).
 Definition i_queue_init := ctor (queue_init 0) (list_destroy 0) (pool_owns 0).
 Definition i_queue_enqueue :=
-  oper [call (ll_init0 0); call (node_alloc 10)] (tree_insert 0 11) (list_destroy 0) [10; 11].
+  oper_c [call (ll_init0 0); call (node_alloc 10)] (tree_insert 0 11) (list_destroy 0) [10; 11] (nodes_cont 0).
 
 (* hash_table.c: 20 = nodes (bucket array), 21 = (table_size != 0) *)
 Definition ht_fail_nodes : list stmt :=
@@ -263,21 +292,21 @@ Definition ht_destroy : list stmt :=
 Definition i_ht_init_orig := ctor ht_init_orig ht_destroy (pool_owns 0 ++ [20]).
 Definition i_ht_init := ctor ht_init ht_destroy (pool_owns 0 ++ [20]).
 Definition i_ht_put :=
-  oper [call ht_init0; call (node_alloc 10)] (Use 20 :: tree_insert 0 11) ht_destroy [20; 10; 11].
+  oper_c [call ht_init0; call (node_alloc 10)] (Use 20 :: tree_insert 0 11) ht_destroy [20; 10; 11] (Use 20 :: nodes_cont 0).
 
 (* more inserters: node from malloc through the other entry point, node from a full pool *)
 Definition i_ll_insert :=                                   (* muggle_linked_list_insert *)
-  oper [call (ll_init0 0); call (node_alloc 10)] (tree_insert 0 11) (list_destroy 0) [10; 11].
+  oper_c [call (ll_init0 0); call (node_alloc 10)] (tree_insert 0 11) (list_destroy 0) [10; 11] (nodes_cont 0).
 Definition i_ll_append_pool_grow :=
-  oper [call (ll_init 0)] (tree_insert_pool 0) (list_destroy 0) (pool_owns 0 ++ [6]).
+  oper_c [call (ll_init 0)] (tree_insert_pool 0) (list_destroy 0) (pool_owns 0 ++ [6]) (pooled_cont 0).
 Definition i_queue_enqueue_pool_grow :=
-  oper [call (queue_init 0)] (tree_insert_pool 0) (list_destroy 0) (pool_owns 0 ++ [6]).
+  oper_c [call (queue_init 0)] (tree_insert_pool 0) (list_destroy 0) (pool_owns 0 ++ [6]) (pooled_cont 0).
 Definition i_trie_insert_pool_grow :=
-  oper [call (tree_init 0)] (tree_insert_pool 0) (tree_destroy 0) (pool_owns 0 ++ [6]).
+  oper_c [call (tree_init 0)] (tree_insert_pool 0) (tree_destroy 0) (pool_owns 0 ++ [6]) (pooled_cont 0).
 Definition i_ht_put_pool_grow :=
-  oper [call ht_init] (Use 20 :: tree_insert_pool 0) ht_destroy (pool_owns 0 ++ [20; 6]).
+  oper_c [call ht_init] (Use 20 :: tree_insert_pool 0) ht_destroy (pool_owns 0 ++ [20; 6]) (Use 20 :: pooled_cont 0).
 Definition i_mpool_alloc_grow_capped :=                     (* max_delta_cap set: same code path *)
-  oper [call (mpool_init 0)] (mpool_alloc 0) (mpool_destroy 0) [0; 1; 2; 5].
+  oper_c [call (mpool_init 0)] (mpool_alloc 0) (mpool_destroy 0) [0; 1; 2; 5] (mpool_cont 0).
 
 (* sort.c muggle_merge_sort: scratch array allocated and freed inside *)
 Definition i_merge_sort := ctor [Alloc 0; IfNull [0] (H 53 [RF]); Use 0; Free 0; RO] [] [].
@@ -346,19 +375,22 @@ Definition evloop_add_ctx_on (backend_field : res) : list stmt :=
 Definition evloop_add_ctx : list stmt := evloop_add_ctx_on 32.
 Definition evloop_add_ctx_pool : list stmt :=            (* ctx_list node taken from the (full) pool *)
   [ Use 0; Use 2; Call (mpool_alloc 3) false (H 69 [RF]); Use 32; RO ].
+(* continued use: a second context is registered (one more ctx_list node, the back-end is used again) *)
+Definition evloop_add_cont (backend_field : res) : list stmt :=
+  [ Use 0; Call (node_alloc 13) false (H 69 [RF]); Use backend_field; RO ].
 Definition i_evloop_add_ctx :=
-  oper [call (evloop_new false epoll_init epoll_destroy)] evloop_add_ctx (evloop_delete epoll_destroy)
-       (ev_base ++ [32; 33; 12]).
+  oper_c [call (evloop_new false epoll_init epoll_destroy)] evloop_add_ctx (evloop_delete epoll_destroy)
+       (ev_base ++ [32; 33; 12]) (evloop_add_cont 32).
 
 Definition i_evloop_add_ctx_poll :=
-  oper [call (evloop_new false poll_init poll_destroy)] (evloop_add_ctx_on 34) (evloop_delete poll_destroy)
-       (ev_base ++ [34; 35; 12]).
+  oper_c [call (evloop_new false poll_init poll_destroy)] (evloop_add_ctx_on 34) (evloop_delete poll_destroy)
+       (ev_base ++ [34; 35; 12]) (evloop_add_cont 34).
 Definition i_evloop_add_ctx_select :=
-  oper [call (evloop_new_gen 168 false select_init select_destroy)] (evloop_add_ctx_on 30) (evloop_delete select_destroy)
-       (ev_base ++ [12]).
+  oper_c [call (evloop_new_gen 168 false select_init select_destroy)] (evloop_add_ctx_on 30) (evloop_delete select_destroy)
+       (ev_base ++ [12]) (evloop_add_cont 30).
 Definition i_evloop_add_ctx_pool_grow :=
-  oper [call (evloop_new true epoll_init epoll_destroy)] evloop_add_ctx_pool (evloop_delete epoll_destroy)
-       (ev_base ++ pool_owns 2 ++ [32; 33; 8]).
+  oper_c [call (evloop_new true epoll_init epoll_destroy)] evloop_add_ctx_pool (evloop_delete epoll_destroy)
+       (ev_base ++ pool_owns 2 ++ [32; 33; 8]) [Use 0; Use 2; Use 3; Use 4; Use 32; RO].
 
 (* ================= net/socket_evloop_handle.c =================
    60 = ctx_queue (dsaa numbering with q = 61: 70 = head linked, 71 = node), 90 = mtx *)
@@ -397,7 +429,7 @@ Definition i_seh_on_read_accept :=
   mkscn [call seh_init; call (evloop_new false epoll_init epoll_destroy); Alloc 95; Alloc 96]
         seh_on_read_accept
         (seh_clear_ctxs 97 ++ seh_destroy ++ evloop_delete epoll_destroy ++ [Free 95; Free 96])
-        ([60; 90] ++ ev_base ++ [32; 33; 95; 96; 97; 98; 12]) false false true [] false.
+        ([60; 90] ++ ev_base ++ [32; 33; 95; 96; 97; 98; 12]) false false true [] false [].
 
 (* muggle_socket_evloop_on_wake (cb_wake): a context queued by muggle_socket_evloop_add_ctx is
    registered; when registration fails it is released (closed and freed) on the spot.
@@ -411,7 +443,7 @@ Definition i_seh_on_wake :=
   mkscn [call seh_init; call (evloop_new false epoll_init epoll_destroy); Alloc 95; Alloc 98; call (node_alloc 71)]
         seh_on_wake
         (seh_clear_ctxs 95 ++ seh_destroy ++ evloop_delete epoll_destroy)
-        ([60; 90] ++ ev_base ++ [32; 33; 95; 98; 12]) false true true [] false.
+        ([60; 90] ++ ev_base ++ [32; 33; 95; 98; 12]) false true true [] false [].
 
 (* ================= net/socket_evloop_pipe.c : 0, 1 = the two pipe descriptors ================= *)
 Definition i_seh_pipe_init :=
@@ -433,12 +465,14 @@ Definition alog_log : list stmt :=
   [ Alloc 80; IfNull [80] (H 75 [RO]); Use 80;
     Alloc 81; IfNull [81] (H 76 [Free 80; RO]); Use 81;
     Use 3; Free 81; Free 80; RO ].
-Definition i_alog_init_orig := mkscn [] (alog_init_with chan_init_default_orig) alog_destroy [0; 3] true false false [] false.
-Definition i_alog_init := mkscn [] (alog_init_with chan_init_default) alog_destroy [0; 3] true false false [] false.
-Definition i_alog_log_orig := mkscn [call (alog_init_with chan_init_default)] alog_log_orig alog_destroy [0; 3] false false true [] false.
-Definition i_alog_log := mkscn [call (alog_init_with chan_init_default)] alog_log alog_destroy [0; 3] false false true [] false.
+(* destroy joins the consumer thread, which a failed init never started: destroy is not run after a reported failure
+   (s_dfail = false); the failed init is RETRIED instead, and destroy runs after the successful retry *)
+Definition i_alog_init_orig := mkscn [] (alog_init_with chan_init_default_orig) alog_destroy [0; 3] true false false [] true [].
+Definition i_alog_init := mkscn [] (alog_init_with chan_init_default) alog_destroy [0; 3] true false false [] true [].
+Definition i_alog_log_orig := mkscn [call (alog_init_with chan_init_default)] alog_log_orig alog_destroy [0; 3] false false true [] false [].
+Definition i_alog_log := mkscn [call (alog_init_with chan_init_default)] alog_log alog_destroy [0; 3] false false true [] false [].
 (* no attached handler accepts the level: muggle_async_logger_log returns before it acquires anything *)
-Definition i_alog_log_filtered := mkscn [call (alog_init_with chan_init_default)] [RO] alog_destroy [0; 3] false false true [] false.
+Definition i_alog_log_filtered := mkscn [call (alog_init_with chan_init_default)] [RO] alog_destroy [0; 3] true false true [] false [].
 
 (* ================= boundary contents on the success path =================
    Containers pre-built with caller-owned values (200.. = blocks allocated by the caller and
@@ -447,75 +481,94 @@ Definition i_alog_log_filtered := mkscn [call (alog_init_with chan_init_default)
    touch: the EMPTY key of a trie (root.children['\0']), a single element, an element inserted
    at index 0 / at the head, a rejected duplicate, a pool or array that is exactly full at
    destroy.  A failed operation is retried without faults before destroy ("safe to retry"). *)
-Definition content (pre op d : list stmt) (owns vals : list res) : scn :=
-  mkscn pre op d (owns ++ vals) true false true vals true.
+Definition content_c (pre op d : list stmt) (owns vals : list res) (cont : list stmt) : scn :=
+  mkscn pre op d (owns ++ vals) true false true vals true cont.
+Definition content (pre op d : list stmt) (owns vals : list res) : scn := content_c pre op d owns vals [].
 Definition node_v (n v : res) : stmt := IfSet n [Use n; Free v; Free n; SetNull n].  (* callback(value); free(node) *)
 Definition slot_v (f v : res) : stmt := IfSet f [Free v].                             (* callback(value) of a stored slot *)
+(* the value that a FAILED operation did not store is still the caller's: the caller releases it after destroy
+   (written before the container's own release of that slot, which clears the marker) *)
+Definition unstored (n v : res) : stmt := IfNull [n] [Free v].
 
 (* trie, capacity 0: pre "a" -> node 10 (value 201); op: insert "" -> node 11 = root.children[0] (value 200) *)
 Definition i_trie_content_empty_key :=
-  content [call tree_init0; Alloc 200; Alloc 201; call (node_alloc 10)] (tree_insert 0 11)
-          ([node_v 11 200; node_v 10 201] ++ pool_destroy_part 0) [10; 11] [200; 201].
+  content_c [call tree_init0; Alloc 200; Alloc 201; call (node_alloc 10)] (tree_insert 0 11)
+          ([unstored 11 200; node_v 11 200; node_v 10 201] ++ extra_nodes 0 ++ pool_destroy_part 0) [10; 11] [200; 201]
+          (trie_cont_keep 0).
 (* trie with a node pool of 8: pre "a", "ab" (flags 220, 221); op: insert "" (flag 222), no acquisition *)
 Definition i_trie_content_empty_key_pool :=
-  content [call (tree_init 0); Alloc 200; Alloc 201; Alloc 202; Mark 220; Mark 221] [Use 0; Use 2; Mark 222; RO]
-          ([slot_v 222 200; slot_v 220 201; slot_v 221 202] ++ pool_destroy_part 0) (pool_owns 0) [200; 201; 202].
+  content_c [call (tree_init 0); Alloc 200; Alloc 201; Alloc 202; Mark 220; Mark 221] [Use 0; Use 2; Mark 222; RO]
+          ([slot_v 222 200; slot_v 220 201; slot_v 221 202] ++ pool_destroy_part 0) (pool_owns 0) [200; 201; 202]
+          (pooled_cont 0).
 (* single element: the only key is "" / the first node of an avl tree / hash table *)
 Definition i_trie_content_single_empty :=
-  content [call tree_init0; Alloc 200] (tree_insert 0 11) ([node_v 11 200] ++ pool_destroy_part 0) [11] [200].
+  content_c [call tree_init0; Alloc 200] (tree_insert 0 11) ([unstored 11 200; node_v 11 200] ++ extra_nodes 0 ++ pool_destroy_part 0) [11] [200]
+          (trie_cont_keep 0).
 Definition i_avl_content_single :=
-  content [call tree_init0; Alloc 200] (tree_insert 0 11) ([node_v 11 200] ++ pool_destroy_part 0) [11] [200].
+  content_c [call tree_init0; Alloc 200] (tree_insert 0 11) ([unstored 11 200; node_v 11 200] ++ pool_destroy_part 0) [11] [200]
+          (nodes_cont_rm 0).
 (* avl: pre 20, 10, 30 and a rejected duplicate 10 (no acquisition); op: insert 5 *)
 Definition i_avl_content :=
-  content [call tree_init0; Alloc 200; Alloc 201; Alloc 202; Alloc 203;
+  content_c [call tree_init0; Alloc 200; Alloc 201; Alloc 202; Alloc 203;
            call (node_alloc 10); call (node_alloc 11); call (node_alloc 12)] (tree_insert 0 13)
-          ([node_v 13 200; node_v 12 203; node_v 11 202; node_v 10 201] ++ pool_destroy_part 0)
-          [10; 11; 12; 13] [200; 201; 202; 203].
+          ([unstored 13 200; node_v 13 200; node_v 12 203; node_v 11 202; node_v 10 201] ++ pool_destroy_part 0)
+          [10; 11; 12; 13] [200; 201; 202; 203]
+          (nodes_cont_rm 0).
 (* hash table: pre "a", "b" and a rejected duplicate "a"; op: put "c" *)
 Definition ht_destroy_v (l : list stmt) : list stmt := IfSet 21 [Use 20] :: l ++ pool_destroy_part 0 ++ [Free 20].
 Definition i_ht_content :=
-  content [call ht_init0; Alloc 200; Alloc 201; Alloc 202; call (node_alloc 10); call (node_alloc 11)]
-          (Use 20 :: tree_insert 0 12) (ht_destroy_v [node_v 12 200; node_v 11 202; node_v 10 201])
-          [20; 10; 11; 12] [200; 201; 202].
+  content_c [call ht_init0; Alloc 200; Alloc 201; Alloc 202; call (node_alloc 10); call (node_alloc 11)]
+          (Use 20 :: tree_insert 0 12) (ht_destroy_v [unstored 12 200; node_v 12 200; node_v 11 202; node_v 10 201])
+          [20; 10; 11; 12] [200; 201; 202]
+          (Use 20 :: nodes_cont_rm 0).
 Definition i_ht_content_single :=
-  content [call ht_init0; Alloc 200] (Use 20 :: tree_insert 0 12) (ht_destroy_v [node_v 12 200]) [20; 12] [200].
+  content_c [call ht_init0; Alloc 200] (Use 20 :: tree_insert 0 12) (ht_destroy_v [unstored 12 200; node_v 12 200]) [20; 12] [200]
+          (Use 20 :: nodes_cont_rm 0).
 (* linked list / queue: pre two elements; op: insert at the head / enqueue *)
 Definition list_destroy_v (l : list stmt) : list stmt := IfNull [9] [Stuck] :: l ++ pool_destroy_part 0.
 Definition i_ll_content_head :=
-  content [call (ll_init0 0); Alloc 200; Alloc 201; Alloc 202; call (node_alloc 10); call (node_alloc 11)]
-          (tree_insert 0 12) (list_destroy_v [node_v 12 200; node_v 10 201; node_v 11 202]) [10; 11; 12] [200; 201; 202].
+  content_c [call (ll_init0 0); Alloc 200; Alloc 201; Alloc 202; call (node_alloc 10); call (node_alloc 11)]
+          (tree_insert 0 12) (list_destroy_v [unstored 12 200; node_v 12 200; node_v 10 201; node_v 11 202]) [10; 11; 12] [200; 201; 202]
+          (nodes_cont_rm 0).
 Definition i_queue_content :=
-  content [call (ll_init0 0); Alloc 200; Alloc 201; Alloc 202; call (node_alloc 10); call (node_alloc 11)]
-          (tree_insert 0 12) (list_destroy_v [node_v 10 201; node_v 11 202; node_v 12 200]) [10; 11; 12] [200; 201; 202].
+  content_c [call (ll_init0 0); Alloc 200; Alloc 201; Alloc 202; call (node_alloc 10); call (node_alloc 11)]
+          (tree_insert 0 12) (list_destroy_v [node_v 10 201; node_v 11 202; unstored 12 200; node_v 12 200]) [10; 11; 12] [200; 201; 202]
+          (nodes_cont_rm 0).
 (* node pool of exactly two nodes, both in use at destroy: no growth, no acquisition in the op *)
 Definition i_ll_content_pool_full :=
-  content [call (ll_init 0); Alloc 200; Alloc 201; Mark 220] [Use 0; Use 2; Mark 221; RO]
-          (list_destroy_v [slot_v 220 201; slot_v 221 200]) (pool_owns 0) [200; 201].
+  content_c [call (ll_init 0); Alloc 200; Alloc 201; Mark 220] [Use 0; Use 2; Mark 221; RO]
+          (list_destroy_v [slot_v 220 201; slot_v 221 200]) (pool_owns 0) [200; 201]
+          (pooled_cont 0).
 Definition i_queue_content_pool_full :=
-  content [call (queue_init 0); Alloc 200; Alloc 201; Mark 220] [Use 0; Use 2; Mark 221; RO]
-          (list_destroy_v [slot_v 220 201; slot_v 221 200]) (pool_owns 0) [200; 201].
+  content_c [call (queue_init 0); Alloc 200; Alloc 201; Mark 220] [Use 0; Use 2; Mark 221; RO]
+          (list_destroy_v [slot_v 220 201; slot_v 221 200]) (pool_owns 0) [200; 201]
+          (pooled_cont 0).
 (* arrays: capacity 4; op stores the element that makes the array exactly full (index 0 / top) *)
 Definition arr_destroy_v (l : list stmt) (d : list stmt) : list stmt := Use 0 :: l ++ d.
 Definition i_array_list_content_index0_full :=
-  content [call arr_init; Alloc 200; Alloc 201; Alloc 202; Alloc 203; Mark 220; Mark 221; Mark 222]
+  content_c [call arr_init; Alloc 200; Alloc 201; Alloc 202; Alloc 203; Mark 220; Mark 221; Mark 222]
           [Use 0; Mark 223; RO]
-          (arr_destroy_v [slot_v 223 200; slot_v 220 201; slot_v 221 202; slot_v 222 203] arr_destroy) [0] [200; 201; 202; 203].
+          (arr_destroy_v [slot_v 223 200; slot_v 220 201; slot_v 221 202; slot_v 222 203] arr_destroy) [0] [200; 201; 202; 203]
+          arr_cont.
 Definition i_stack_content_full :=
-  content [call arr_init; Alloc 200; Alloc 201; Alloc 202; Alloc 203; Mark 220; Mark 221; Mark 222]
+  content_c [call arr_init; Alloc 200; Alloc 201; Alloc 202; Alloc 203; Mark 220; Mark 221; Mark 222]
           [Use 0; Mark 223; RO]
-          (arr_destroy_v [slot_v 220 201; slot_v 221 202; slot_v 222 203; slot_v 223 200] arr_destroy) [0] [200; 201; 202; 203].
+          (arr_destroy_v [slot_v 220 201; slot_v 221 202; slot_v 222 203; slot_v 223 200] arr_destroy) [0] [200; 201; 202; 203]
+          arr_cont.
 (* arrays already full with four values: op stores a fifth at index 0 / in the heap and grows *)
 Definition arr_store_grow : list stmt := [ Call arr_ensure false (H 42 [RF]); Use 0; Mark 224; RO ].
 Definition i_array_list_content_index0_grow :=
-  content [call arr_init; Alloc 200; Alloc 201; Alloc 202; Alloc 203; Alloc 204; Mark 220; Mark 221; Mark 222; Mark 223]
+  content_c [call arr_init; Alloc 200; Alloc 201; Alloc 202; Alloc 203; Alloc 204; Mark 220; Mark 221; Mark 222; Mark 223]
           arr_store_grow
-          (arr_destroy_v [slot_v 224 200; slot_v 220 201; slot_v 221 202; slot_v 222 203; slot_v 223 204] arr_destroy)
-          [0] [200; 201; 202; 203; 204].
+          (arr_destroy_v [unstored 224 200; slot_v 224 200; slot_v 220 201; slot_v 221 202; slot_v 222 203; slot_v 223 204] arr_destroy)
+          [0] [200; 201; 202; 203; 204]
+          arr_cont.
 Definition i_heap_content_grow :=
-  content [call arr_init; Alloc 200; Alloc 201; Alloc 202; Alloc 203; Alloc 204; Mark 220; Mark 221; Mark 222; Mark 223]
+  content_c [call arr_init; Alloc 200; Alloc 201; Alloc 202; Alloc 203; Alloc 204; Mark 220; Mark 221; Mark 222; Mark 223]
           arr_store_grow
-          (arr_destroy_v [slot_v 220 201; slot_v 221 202; slot_v 222 203; slot_v 223 204; slot_v 224 200] arr_destroy_g)
-          [0] [200; 201; 202; 203; 204].
+          (arr_destroy_v [slot_v 220 201; slot_v 221 202; slot_v 222 203; slot_v 223 204; unstored 224 200; slot_v 224 200] arr_destroy_g)
+          [0] [200; 201; 202; 203; 204]
+          arr_cont.
 
 (* ================= log handlers owning a FILE* (0 = handler->fp) =================
    fopen / fclose are acquisition / release of the third resource class; fwrite / fflush on a
@@ -528,7 +581,65 @@ Definition i_log_rotate_handler := ctor lrh_init fp_destroy [0].
 Definition lrh_rotate : list stmt := [ IfSet 0 [Free 0; SetNull 0]; Alloc 0; IfNull [0] (H 81 [RF]); RO ].
 Definition lrh_write : list stmt := [ IfSet 0 [Use 0; Call lrh_rotate false (H 82 [])]; RO ].
 Definition i_log_rotate_write :=
-  mkscn [call lrh_init] [call lrh_write; call lrh_write; RO] fp_destroy [0] false true true [] false.
+  mkscn [call lrh_init] [call lrh_write; call lrh_write; RO] fp_destroy [0] false true true [] false [].
+
+
+(* ================= entry points added by the coverage obligation (ids 300..) =================
+   every function with external linkage under muggle/c from which an acquisition is reachable is either driven by an
+   instance or listed, with its reason, in C18/Coverage.v (theorem every_allocating_entry_point_accounted_for) *)
+
+(* time/fast_flow_controller.c : 0 = arr *)
+Definition i_fast_flow_ctl := ctor [Alloc 0; IfNull [0] (H 85 [RF]); Use 0; RO] guarded_free1 [0].
+
+(* log/log_file_time_rot_handler.c : 0 = handler->fp.  rotate: close the current file, open the file of the new period *)
+Definition ltr_rotate : list stmt := [ IfSet 0 [Free 0; SetNull 0]; Alloc 0; IfNull [0] (H 86 [RF]); RO ].
+Definition ltr_init : list stmt := [ Call ltr_rotate true (H 87 [Ret None]); RO ].
+Definition i_log_time_rot_handler := ctor ltr_init fp_destroy [0].
+(* write of a message stamped in a later period: detect -> rotate (result only printed) -> write when a file is open *)
+Definition ltr_write : list stmt := [ IfSet 0 [Call ltr_rotate false (H 88 [])]; IfSet 0 [Use 0]; RO ].
+Definition i_log_time_rot_write :=
+  mkscn [call ltr_init] [call ltr_write; call ltr_write; RO] fp_destroy [0] false true true [] false [].
+
+(* log/log_console_handler.c: muggle_log_console_handler_init makes no acquisition (mutex only) *)
+Definition i_log_console_handler := ctor [RO] [] [].
+
+(* log/log.c muggle_log_simple_init(console level, file level): console handler (no acquisition), then the rotating
+   file handler "log/<process>.log"; both are attached to the default logger.  0 = rot_file_handler.fp *)
+Definition log_simple_init : list stmt := [ Call lrh_init false (H 89 [RF]); RO ].
+Definition i_log_simple_init := ctor log_simple_init fp_destroy [0].
+(* log/log.c muggle_log_complicated_init: the result of muggle_log_file_time_rot_handler_init is DROPPED - a failed
+   fopen is answered with success and the handler (fp == NULL) is attached: recorded known finding *)
+Definition log_complicated_init : list stmt := [ Call ltr_init false []; RO ].
+Definition i_log_complicated_init := ctor log_complicated_init fp_destroy [0].
+(* ... with the proposed repair fixes/C18-log-complicated-init-reports-failure.patch *)
+Definition log_complicated_init_fixed : list stmt := [ Call ltr_init false (H 90 [RF]); RO ].
+Definition i_log_complicated_init_fixed := ctor log_complicated_init_fixed fp_destroy [0].
+
+(* os/os.c muggle_os_fopen (the file handlers open their files through it): 0 = the FILE* handed to the caller *)
+Definition i_os_fopen := ctor [Alloc 0; IfNull [0] (H 91 [RF]); RO] fp_destroy [0].
+
+(* net/socket.c, net/socket_utils.c: one socket() per call (one address for a numeric host); every later failure
+   closes it.  0 = the descriptor handed to the caller, 95 = a listener made by the driver *)
+Definition sock_op (l : nat) : list stmt := [ Alloc 0; IfNull [0] (H l [RF]); Use 0; RO ].
+Definition sock_destroy : list stmt := [ IfSet 0 [Free 0; SetNull 0] ].
+Definition i_socket_create := ctor (sock_op 92) sock_destroy [0].
+Definition i_tcp_listen := ctor (sock_op 93) sock_destroy [0].
+Definition i_tcp_connect := oper [Alloc 95] (sock_op 94) (sock_destroy ++ [Free 95]) [0; 95].
+Definition i_tcp_bind := ctor (sock_op 95) sock_destroy [0].
+Definition i_tcp_bind_connect :=
+  oper [Alloc 95] [Call (sock_op 95) false (H 96 [RF]); Use 0; RO] (sock_destroy ++ [Free 95]) [0; 95].
+Definition i_udp_bind := ctor (sock_op 97) sock_destroy [0].
+Definition i_udp_connect := ctor (sock_op 98) sock_destroy [0].
+Definition i_mcast_join := ctor (sock_op 99) sock_destroy [0].
+Definition i_socketpair :=
+  ctor [Alloc2 0 1; IfNull [0] (H 100 [RF]); RO] [IfSet 0 [Free 0; SetNull 0]; IfSet 1 [Free 1; SetNull 1]] [0; 1].
+
+(* dsaa/sort.c muggle_heap_sort: a heap of count + 1 slots built and destroyed inside (inserts never grow it) *)
+Definition i_heap_sort := ctor [Call arr_init false (H 101 [RF]); Use 0; call arr_destroy_g; RO] [] [].
+
+(* sync/ma_ring.c muggle_ma_ring_thread_ctx_get: creates the thread context on first use *)
+Definition mar_get : list stmt := [ IfNull [0] [Call mar_init true []; Ret None]; RO ].
+Definition i_ma_ring_get := ctor mar_get mar_cleanup [0; 1; 2].
 
 (* ================= table used by the drivers (id -> scenario) ================= *)
 Definition inst_table : list (nat * scn) :=
@@ -556,6 +667,12 @@ Definition inst_table : list (nat * scn) :=
     (73, i_array_list_content_index0_full); (74, i_array_list_content_index0_grow); (75, i_heap_content_grow);
     (76, i_stack_content_full);
     (77, i_log_file_handler); (78, i_log_rotate_handler); (79, i_log_rotate_write); (80, i_alog_log_filtered);
+    (300, i_fast_flow_ctl); (301, i_log_time_rot_handler); (302, i_log_time_rot_write); (303, i_log_console_handler);
+    (304, i_log_simple_init); (305, i_log_complicated_init); (306, i_socket_create); (307, i_tcp_listen);
+    (308, i_tcp_connect); (309, i_tcp_bind); (310, i_tcp_bind_connect); (311, i_udp_bind); (312, i_udp_connect);
+    (313, i_mcast_join); (314, i_socketpair); (315, i_heap_sort); (316, i_ma_ring_get); (317, i_os_fopen);
+    (* the proposed repair of muggle_log_complicated_init (not in the repository yet; no differential run) *)
+    (405, i_log_complicated_init_fixed);
     (* transcriptions of the unchanged (defective) code *)
     (100, i_chan_mutex_orig); (103, i_ma_ring_orig); (104, i_dbuf_orig); (109, i_sowr_orig);
     (110, i_ts_orig); (118, i_avl_init_orig); (121, i_ht_init_orig); (126, i_ll_init_orig);
@@ -570,6 +687,8 @@ Fixpoint lookup (id : nat) (t : list (nat * scn)) : option scn :=
   end.
 
 Definition inst_by_id (id : nat) : option scn := lookup id inst_table.
+(* ids 100..199: transcriptions of the unchanged defective code (each refuted); every other id: the code as it is *)
+Definition orig_id (id : nat) : bool := (100 <=? id) && (id <? 200).
 
 (* what the model driver prints for one (instance, fault set) *)
 Definition faults_of (ks : list nat) : nat -> bool := fun i => existsb (Nat.eqb i) ks.
@@ -595,3 +714,5 @@ Definition retry_of (id : nat) : bool :=
   match inst_by_id id with Some sc => s_retry sc | None => false end.
 Definition dfail_of (id : nat) : bool :=
   match inst_by_id id with Some sc => s_dfail sc | None => false end.
+Definition cont_of (id : nat) : bool :=
+  match inst_by_id id with Some sc => negb (no_stmts (s_cont sc)) | None => false end.
